@@ -1489,6 +1489,8 @@ def _b_int(interp, args, kw):
 def _b_isinstance(interp, args, kw):
     v, c = args
     cs = c if isinstance(c, tuple) else (c,)
+    if hasattr(v, "__pyvc_isinstance__"):
+        return any(v.__pyvc_isinstance__(k) for k in cs)
     for k in cs:
         if isinstance(k, ClassObj):
             if isinstance(v, Obj) and v.cls.issubclass(k):
